@@ -13,7 +13,7 @@ package rvesting
 //
 // rewardFacts = exactly what validatePerBlockReward establishes (its own contract proves it);
 // distinctDenoms is what the proof of the schedule additionally needs (see types/zz_verif_contracts.go).
-// verif:pred rewardFacts(r) := len(r) != 0 && forall i int :: 0 <= i && i < len(r) ==> len(r[i].Denom) != 0 && r[i].Amount >= 0
+// verif:pred rewardFacts(r) := len(r) != 0 && forall i int :: 0 <= i && i < len(r) ==> len(r[i].Denom) != 0 && sdk.ValidateDenom(r[i].Denom) == nil && r[i].Amount >= 0
 // verif:pred distinctDenoms(r) := forall i int :: forall j int :: 0 <= i && i < j && j < len(r) ==> r[i].Denom != r[j].Denom
 // verif:pred pool() := modaddr(types.ModuleName)
 
